@@ -32,6 +32,13 @@ def clockOk (i : Inst) : Int → Nat → List Nat → Bool
     decide (t + i.base.D cur a ≤ i.twE a) &&
       clockOk i (if a ≠ 0 then max (t + i.base.D cur a) (i.twS a) + i.dur a else 0) a as
 
+/-- the clock update of `_step` in the shape the proofs use; holds because the extracted source shape is
+`(action != 0) * (max(current_time + distance, tw_start) + duration)` (`Params.cvrptwStepDepotCmp = ne`,
+`Params.cvrptwStepDurAfterMax = true`): a source edit of either breaks this proof. -/
+theorem step_time (i : Inst) (s : State) (a : Nat) :
+    (env.step i s a).time = (if a ≠ 0 then max (s.time + s.dist a) (i.twS a) + i.dur a else 0) := by
+  simp [env, step, refresh, Params.cvrptwStepDepotCmp, Params.cvrptwStepDurAfterMax, Cmp.evalNat]
+
 /-- the cache invariant: `distances` is the row of the current node -/
 def CacheOk (i : Inst) (s : State) : Prop := ∀ j, s.dist j = i.base.D s.base.cur j
 
@@ -50,7 +57,7 @@ theorem clock_of_run (i : Inst) {s s' : State} {as : List Nat} (h : Run env i s 
     simp only [clockOk, Bool.and_eq_true]
     refine ⟨h2, ?_⟩
     have : (env.step i s a).time = (if a ≠ 0 then max (s.time + i.base.D s.base.cur a) (i.twS a) + i.dur a else 0) := by
-      simp only [env, step, refresh, hc a]
+      rw [step_time, hc a]
     have hcur : (env.step i s a).base.cur = a := rfl
     rw [this, hcur] at ih'
     exact ih'
